@@ -67,6 +67,7 @@ func checkC18(c *Ctx) (string, error) {
 	c.Rule("R18.4", "shipped targets/*.json conform to Config (value types, known parents, acyclic inheritance)", 100)
 	c.Rule("R18.5", "no map iteration order reaches a list-valued field or returned list", 1)
 	checkCacheOnlySuccess(c, p)
+	checkEnumValidation(c, p)
 
 	cfgT := structOf(lookupNamed(p.Types, "Config"))
 	if cfgT == nil {
